@@ -15,6 +15,10 @@ CHECKS = {
    text="TLC proves the incremental context computation equal to the declarative one (processes with start < t < end) for all histories with <= 4 time points and <= 4 process actions over Onset/Offset of 2 names and Duration groups (253k states); every history in bounds (T=3,A=3 quick; T=4,A=4 thorough) is realised as a valid events file (unit spellings, Delay-shifted groups, equal-onset rows, plain tags) and run through the real EventManager: started processes, context, residual annotation and process end indices are compared with the values TLC emitted; unordered files must be rejected",
    note="bounded histories; times are integer ms; process identity by unique tags; follower entries of an equal-onset time point are compared leniently (see DESIGN.md)",
    technique="TLA+ spec + TLC model checking; exhaustive behaviour replay with TLC-computed expected state"),
+ "C09": dict(
+   text="TLC checks the expand/shrink/copy/validate object machine of Defs.tla (3 objects, 6 operations; WellNested, ExpandAll, ShrinkAll, NoAlias) and shows that the machine with unmaintained expansion flags (the code as found) violates it; every operation sequence TLC reaches (<=4 ops on <=2 objects quick, <=5 on <=3 thorough) is replayed on real HedString objects over 4 skeletons x 5 definition uses with the printed tree compared after every step (and column-wise through df_util); the acceptance table (1584 definition shapes) and the Def-expand variant table (264 variants: all sibling orders x 6 alterations) computed by TLC are replayed through DefinitionDict.check_for_definitions and HedString.validate",
+   note="bounded op sequences; printed trees compared up to sibling order/case by an independent parser; concretisation uses HED 8.3.0",
+   technique="TLA+ spec + TLC model checking; behaviour replay with per-step state comparison; TLC-computed decision tables replayed"),
 }
 ALL = ["C%02d" % i for i in range(1, 21)]
 m = {
